@@ -377,10 +377,10 @@ Section SignedSound.
       destruct H as [[Hc H]|[Hc H]].
     - destruct (IHx _ _ _ H) as (v & p & s' & -> & -> & Hc1 & Hu1 & Hs1 & Hf1).
       exists v, (c :: p), s'. split; [reflexivity|]. split; [reflexivity|]. split; [apply cnt_or_i_l; assumption|].
-      tc v; destruct ux, uy, sx, sy, ddx, ddy; fin2.
+      tc v; (split; [destruct ux, uy; fin2 | split; [destruct sx, sy; fin2 | destruct ddx, ddy; fin2]]).
     - destruct (IHy _ _ _ H) as (v & p & s' & -> & -> & Hc1 & Hu1 & Hs1 & Hf1).
       exists v, (c :: p), s'. split; [reflexivity|]. split; [reflexivity|]. split; [apply cnt_or_i_r; assumption|].
-      tc v; destruct ux, uy, sx, sy, ddx, ddy; fin2.
+      tc v; (split; [destruct ux, uy; fin2 | split; [destruct sx, sy; fin2 | destruct ddx, ddy; fin2]]).
     - destruct (IHx _ _ _ H) as (kk & p & s' & -> & -> & Hc1 & Hf1).
       exists kk, (c :: p), s'. split; [reflexivity|]. split; [reflexivity|]. split; [eapply cntK_or_i_l; eassumption|].
       destruct ddx, ddy; fin2.
@@ -425,10 +425,10 @@ Section SignedSound.
     - (* B, a satisfied: b runs *)
       destruct (IHb _ _ _ H) as (v & p2 & s2 & -> & -> & Hc2 & Hu2 & Hs2 & Hf2).
       exists v, (p1 ++ p2), s2. split; [apply app_assoc|]. split; [reflexivity|]. split; [apply cnt_andor_b; assumption|].
-      tc v; destruct ub, uc, sa, sb, sc, ddb, ddc; fin2.
+      tc v; (split; [destruct ub, uc; fin2 | split; [destruct sa, sb, sc; fin2 | destruct sa, ddb, ddc; fin2]]).
     - destruct (IHc _ _ _ H) as (v & p2 & s2 & -> & -> & Hc2 & Hu2 & Hs2 & Hf2).
       exists v, (p1 ++ p2), s2. split; [apply app_assoc|]. split; [reflexivity|]. split; [apply cnt_andor_c; assumption|].
-      tc v; destruct ub, uc, sa, sb, sc, ddb, ddc; fin2.
+      tc v; (split; [destruct ub, uc; fin2 | split; [destruct sa, sb, sc; fin2 | destruct sa, ddb, ddc; fin2]]).
     - destruct (IHb _ _ _ H) as (kk & p2 & s2 & -> & -> & Hc2 & Hf2).
       exists kk, (p1 ++ p2), s2. split; [apply app_assoc|]. split; [reflexivity|]. split; [apply cntK_andor_b; assumption|].
       destruct sa, ddb, ddc; fin2.
@@ -442,4 +442,477 @@ Section SignedSound.
       exists (p1 ++ p2), s2. split; [apply app_assoc|]. split; [reflexivity|]. split; [apply cnt_andor_c; assumption|].
       destruct sa, sb, sc; fin2.
   Qed.
-  (* END *)
+  (* ---------- thresh ---------- *)
+  Definition isnum (v : bytes) (a : Z) : Prop := forall z, num_operand 4 v = Some z -> z = a.
+  Definition b2z (b : bool) : Z := if b then 1%Z else 0%Z.
+  Fixpoint nuns (ts : list ty) : Z :=
+    match ts with [] => 0%Z | t :: r => (b2z (negb (m_signed (t_mall t))) + nuns r)%Z end.
+  Definition wcnt (n : N) (p : list bytes) : Prop := (n = 0%N -> p = []) /\ (n = 1%N -> length p = 1%nat).
+
+  Lemma wcnt_weight c p : cnt (c_input c) p -> wcnt (weight c) p.
+  Proof. unfold weight. destruct (c_input c); cbn; intros H; split; intros E; try discriminate; auto. Qed.
+  Lemma wcnt_add n m p q : wcnt n p -> wcnt m q -> wcnt (n + m) (p ++ q).
+  Proof.
+    intros [H1 H2] [H3 H4]. split; intros E.
+    - rewrite H1, H3 by lia. reflexivity.
+    - assert (Hc : (n = 0 /\ m = 1)%N \/ (n = 1 /\ m = 0)%N) by lia. destruct Hc as [[En Em]|[En Em]].
+      + rewrite (H1 En). cbn. auto.
+      + rewrite (H3 Em), app_nil_r. auto.
+  Qed.
+  Lemma wcnt_cnt n p : wcnt n p -> cnt (match n with 0%N => IZero | 1%N => IOne | _ => IAny end) p.
+  Proof. intros [H1 H2]. destruct n as [|[q|q|]]; cbn; auto. Qed.
+  Lemma nuns_nonneg ts : (0 <= nuns ts)%Z.
+  Proof. induction ts as [|t r IH]; cbn [nuns]; [lia|]. destruct (m_signed (t_mall t)); cbn [negb b2z]; lia. Qed.
+
+  Lemma isnum_encode z : (0 <= z)%Z -> isnum (num_encode z) z.
+  Proof. intros Hz z' H. apply num_operand4_encode in H; assumption. Qed.
+  Lemma isnum_val v : (truthy v = true -> v = [1%N]) -> isnum v (b2z (truthy v)).
+  Proof.
+    intros Hu z Hz. destruct (truthy v) eqn:E; cbn.
+    - rewrite (Hu eq_refl) in Hz. cbn in Hz. congruence.
+    - eapply num_falsy; eassumption.
+  Qed.
+
+  Lemma tail_sound r : forall ts, Forall2 (fun x t => soundW x t /\ c_unit (t_corr t) = true) r ts ->
+    forall accv a s al st', isnum accv a -> (0 <= a)%Z ->
+    exec e (enc_tail ke r) (mkSt (accv :: s) al) = Ok st' ->
+    exists accv' a' p s', s = p ++ s' /\ st' = mkSt (accv' :: s') al /\ isnum accv' a' /\ (a <= a')%Z /\
+      wcnt (sumw (map t_corr ts)) p /\ (hassig p \/ (a' - a <= nuns ts)%Z).
+  Proof.
+    induction 1 as [|x t r ts [Hx Hux] Hr IH]; intros accv a s al st' Hn Ha H.
+    - cbn in H. okinv H. exists accv, a, [], s. repeat split; auto; try lia; try discriminate. right. cbn. lia.
+    - cbn [enc_tail app] in H. apply exec_app_ok in H. destruct H as [st1 [H1 H]].
+      destruct (Hx _ _ _ H1) as (c & v & p1 & s1 & Es & Hst & Hcnt & Hu & Hs & Hf). okinv Es.
+      apply exec_cons_ok in H. destruct H as [st2 [H2 H]]. cbn [exec_instr] in H2.
+      assert (Hv : isnum v (b2z (truthy v))) by (apply isnum_val; auto).
+      assert (Hst2 : st2 = mkSt (num_encode (a + b2z (truthy v)) :: s1) al).
+      { destruct Hst as [-> | ->]; apply add_ok in H2; destruct H2 as (x1 & y1 & r1 & n1 & n2 & Es & E1 & E2 & ->); okinv Es.
+        - rewrite (Hn _ E1), (Hv _ E2). rewrite Z.add_comm. reflexivity.
+        - rewrite (Hn _ E2), (Hv _ E1). reflexivity. }
+      subst st2.
+      assert (Hb : (0 <= b2z (truthy v) <= 1)%Z) by (destruct (truthy v); cbn; lia).
+      assert (Ha2 : (0 <= a + b2z (truthy v))%Z) by lia.
+      destruct (IH _ (a + b2z (truthy v))%Z _ _ _ (isnum_encode _ Ha2) Ha2 H)
+        as (accv' & a' & p2 & s2 & -> & -> & Hn' & Hle & Hw & Hsig).
+      exists accv', a', (p1 ++ p2), s2. split; [apply app_assoc|]. split; [reflexivity|]. split; [exact Hn'|].
+      split; [lia|]. split; [cbn [map sumw]; apply wcnt_add; [apply wcnt_weight; exact Hcnt | exact Hw]|].
+      cbn [nuns]. pose proof (nuns_nonneg ts) as Hnn.
+      destruct Hsig as [Hsig|Hsig]; [left; apply hassig_app_r; exact Hsig|].
+      destruct (truthy v) eqn:Etv; cbn [b2z] in *.
+      + destruct (m_signed (t_mall t)) eqn:Esg; cbn [negb b2z].
+        * left. apply hassig_app_l. auto.
+        * right. lia.
+      + right. destruct (m_signed (t_mall t)); cbn [negb b2z]; lia.
+  Qed.
+
+  Fixpoint csig (ms : list mall) : N :=
+    match ms with [] => 0%N | s :: r => ((if m_signed s then 1 else 0) + csig r)%N end.
+  Lemma m_thresh_loop_fst subs : forall sc du nm,
+    fst (fst (m_thresh_loop subs sc du nm)) = (sc + csig subs)%N.
+  Proof.
+    induction subs as [|s r IH]; intros sc du nm; cbn [m_thresh_loop csig fst]; [lia|].
+    rewrite IH. lia.
+  Qed.
+  Lemma nuns_csig ts : nuns ts = (Z.of_nat (length ts) - Z.of_N (csig (map t_mall ts)))%Z.
+  Proof.
+    induction ts as [|t r IH]; cbn [nuns length map csig]; [reflexivity|].
+    rewrite IH. destruct (m_signed (t_mall t)); cbn [negb b2z]; lia.
+  Qed.
+  Lemma m_threshold_signed k ms : m_signed (m_threshold k ms) = true ->
+    (Z.of_nat (length ms) - Z.of_N (csig ms) < Z.of_N k)%Z.
+  Proof.
+    unfold m_threshold. pose proof (m_thresh_loop_fst ms 0 true true) as Hf.
+    destruct (m_thresh_loop ms 0 true true) as [[sc du] nm]. cbn [fst] in Hf. cbn [m_signed].
+    intros H. apply N.ltb_lt in H. lia.
+  Qed.
+  Lemma m_threshold_dissat k ms : m_dissat (m_threshold k ms) <> DNone.
+  Proof.
+    unfold m_threshold. destruct (m_thresh_loop ms 0 true true) as [[sc du] nm]. cbn [m_dissat].
+    destruct (du && _); discriminate.
+  Qed.
+
+  Lemma sound_thresh k x0 r t0 ts0 t :
+    sound x0 t0 -> Forall2 sound r ts0 -> t_threshold k (t0 :: ts0) = ROk t -> (k < 2147483648)%N ->
+    sound (MThresh k (x0 :: r)) t.
+  Proof.
+    intros H0 Hrest Ht Hk. unfold t_threshold in Ht.
+    destruct (c_threshold k (map t_corr (t0 :: ts0))) as [c|] eqn:Ec; [|discriminate]. okinv Ht.
+    unfold c_threshold in Ec. cbn [map] in Ec. destruct (loop_first (t_corr t0) (map t_corr ts0)) as [Lt Lf].
+    destruct (child_ok true (t_corr t0) && forallb (child_ok false) (map t_corr ts0)) eqn:Eok.
+    2:{ destruct (Lf eq_refl) as [err He]. rewrite He in Ec. discriminate. }
+    rewrite (Lt eq_refl) in Ec. okinv Ec.
+    apply andb_prop in Eok. destruct Eok as [Ok0 Okr].
+    assert (HW : Forall2 (fun x t => soundW x t /\ c_unit (t_corr t) = true) r ts0).
+    { clear -Hrest Okr. induction Hrest as [|x t r ts Hx Hr IHr]; [constructor|].
+      cbn [map forallb] in Okr. apply andb_prop in Okr. destruct Okr as [O1 O2].
+      constructor; [|apply IHr, O2]. unfold child_ok in O1. unfold sound in Hx. destruct t as [[b i d u] m].
+      cbn [t_corr c_base c_unit c_dissat] in *. destruct b, u, d; try discriminate. split; [exact Hx | reflexivity]. }
+    unfold child_ok in Ok0. unfold sound in H0. destruct t0 as [[b0 i0 d0 u0] [dd0 s0 n0]].
+    cbn [t_corr c_base c_unit c_dissat] in Ok0, H0. destruct b0, u0, d0; try discriminate.
+    unfold sound. cbn [t_corr c_base]. unfold soundB, vclaims. cbn [t_corr t_mall c_input c_unit].
+    intros s al st' H. rewrite (enc_thresh ke k x0 r) in H.
+    apply exec_app_ok in H. destruct H as [st1 [H1 H]].
+    destruct (H0 _ _ _ H1) as (v0 & p0 & s1 & -> & -> & Hc0 & Hu0 & Hs0 & Hf0).
+    cbn [t_corr t_mall c_input c_unit m_signed m_dissat] in *.
+    apply exec_app_ok in H. destruct H as [st2 [H2 H]].
+    assert (Hb : (0 <= b2z (truthy v0) <= 1)%Z) by (destruct (truthy v0); cbn; lia).
+    destruct (tail_sound r ts0 HW v0 (b2z (truthy v0)) s1 al st2 (isnum_val v0 (Hu0 eq_refl)) ltac:(lia) H2)
+      as (accv' & a' & p & s' & -> & -> & Hn' & Hle & Hw & Hsig).
+    apply exec_cons_ok in H. destruct H as [st3 [H3 H]]. rewrite exec_push_int' in H3. okinv H3.
+    apply exec_one_ok in H. cbn [exec_instr stk alt] in H. apply equal_ok in H.
+    destruct H as (xk & y & r' & Es & ->). okinv Es.
+    exists (bool_bytes (bytes_eqb (num_encode (Z.of_N k)) y)), (p0 ++ p), r'.
+    split; [apply app_assoc|]. split; [reflexivity|].
+    split; [apply wcnt_cnt; cbn [sumw]; apply wcnt_add; [apply (wcnt_weight (mkCorr BB i0 true true)); exact Hc0 | exact Hw]|].
+    split; [intros _ Htr; rewrite truthy_bool in Htr; rewrite Htr; reflexivity|].
+    split.
+    - intros Hsg Htr. rewrite truthy_bool in Htr. apply bytes_eqb_eq in Htr. subst y.
+      assert (Ha' : Z.of_N k = a') by (apply Hn', num_roundtrip; lia).
+      apply m_threshold_signed in Hsg. cbn [map length csig m_signed] in Hsg.
+      pose proof (nuns_csig ts0) as Hnu. rewrite map_length in Hsg.
+      destruct Hsig as [Hsig|Hsig]; [apply hassig_app_r; exact Hsig|].
+      apply hassig_app_l. destruct (truthy v0) eqn:Etv.
+      + destruct s0; [auto|]. exfalso. cbn [b2z] in *. lia.
+      + exfalso. cbn [b2z] in *. destruct s0; lia.
+    - intros Hd. exfalso. exact (m_threshold_dissat _ _ Hd).
+  Qed.
+  (* ---------- multi / sortedmulti (CHECKMULTISIG) ---------- *)
+  Lemma sound_multi_gen (m : ms) k (keys : list key) (n : nat) :
+    (1 <= k)%N -> length keys = n ->
+    enc ke m = [push_int (Z.of_N k)] ++ map (fun key => IPush (kb ke key)) keys
+                 ++ [push_int (Z.of_nat n); IOp OP_CHECKMULTISIG] ->
+    sound m t_multi.
+  Proof.
+    intros Hk Hlen Henc. tyred. intros s al st' H. rewrite Henc in H. cbn [app] in H.
+    apply exec_cons_ok in H. destruct H as [st1 [H1 H]]. rewrite exec_push_int' in H1. okinv H1.
+    rewrite <- (map_map (kb ke) IPush) in H. rewrite exec_pushes in H. cbn [stk alt] in H.
+    apply exec_cons_ok in H. destruct H as [st1 [H1 H]]. rewrite exec_push_int' in H1. okinv H1.
+    cbn [stk alt] in H. apply exec_one_ok in H. cbn [exec_instr] in H. apply cms_ok in H.
+    destruct H as (nb & r1 & n' & keys_rev & mb & r3 & m' & sigs_rev & r5 & b & Es & En & Ek & Em & Esg & -> & Hb).
+    okinv Es. apply num_operand4_encode in En; [|lia]. subst n'.
+    rewrite Nat2Z.id in Ek. rewrite <- (map_length (kb ke) keys), <- rev_length in Ek.
+    rewrite take_n_app in Ek. okinv Ek.
+    apply num_operand4_encode in Em; [|lia]. subst m'.
+    apply take_n_some in Esg. destruct Esg as [-> Hl].
+    exists (bool_bytes b), (sigs_rev ++ [[]]), r5. split; [rewrite <- app_assoc; reflexivity|]. split; [reflexivity|].
+    split; [exact I|]. repeat split; intros; try discriminate.
+    - rewrite truthy_bool in *. subst b. reflexivity.
+    - rewrite truthy_bool in *. subst b. specialize (Hb eq_refl).
+      destruct sigs_rev as [|sg srest]; [cbn in Hl; lia|].
+      apply mm_first in Hb. destruct Hb as [kk Hkk]. eapply hassig_here. exact Hkk.
+  Qed.
+
+  (* ---------- multi_a / sortedmulti_a (CHECKSIG, CHECKSIGADD..., NUMEQUAL) ---------- *)
+  Definition csa_script (ks : list key) : script :=
+    flat_map (fun key => [IPush (kb ke key); IOp OP_CHECKSIGADD]) ks.
+
+  Lemma csa_sound ks : forall accv a s al st', isnum accv a -> (0 <= a)%Z ->
+    exec e (csa_script ks) (mkSt (accv :: s) al) = Ok st' ->
+    exists accv' a' p s', s = p ++ s' /\ st' = mkSt (accv' :: s') al /\ isnum accv' a' /\ (a <= a')%Z /\
+      (a' = a \/ hassig p).
+  Proof.
+    induction ks as [|key r IH]; intros accv a s al st' Hn Ha H.
+    - cbn in H. okinv H. exists accv, a, [], s. repeat split; auto; lia.
+    - cbn [csa_script flat_map app] in H. fold (csa_script r) in H.
+      apply exec_cons_ok in H. destruct H as [st1 [H1 H]]. cbn [exec_instr stk alt] in H1. okinv H1.
+      apply exec_cons_ok in H. destruct H as [st1 [H1 H]]. cbn [exec_instr] in H1. apply csa_ok in H1.
+      destruct H1 as (k0 & nb & sg & r0 & n & b & Es & En & -> & Hb). okinv Es.
+      rewrite (Hn _ En) in *.
+      assert (Ha2 : (0 <= a + (if b then 1 else 0))%Z) by (destruct b; lia).
+      destruct (IH _ _ _ _ _ (isnum_encode _ Ha2) Ha2 H) as (accv' & a' & p2 & s2 & -> & -> & Hn' & Hle & Hsig).
+      exists accv', a', (sg :: p2), s2. split; [reflexivity|]. split; [reflexivity|]. split; [exact Hn'|].
+      split; [destruct b; lia|].
+      destruct b.
+      + right. eapply hassig_here. apply Hb. reflexivity.
+      + destruct Hsig as [->|Hsig]; [left; lia | right; apply hassig_cons; exact Hsig].
+  Qed.
+
+  Lemma sound_multi_a_gen (m : ms) k key0 (keys : list key) :
+    (1 <= k)%N ->
+    enc ke m = ([IPush (kb ke key0); IOp OP_CHECKSIG] ++ csa_script keys) ++ [push_int (Z.of_N k); IOp OP_NUMEQUAL] ->
+    sound m t_multi_a.
+  Proof.
+    intros Hk Henc. tyred. intros s al st' H. rewrite Henc in H.
+    apply exec_app_ok in H. destruct H as [st2 [H2 H]]. cbn [app] in H2.
+    apply exec_cons_ok in H2. destruct H2 as [st1 [H1 H2]]. cbn [exec_instr stk alt] in H1. okinv H1.
+    apply exec_cons_ok in H2. destruct H2 as [st1 [H1 H2]]. cbn [exec_instr] in H1. apply checksig_ok in H1.
+    destruct H1 as (k0 & sg & r0 & b & Es & -> & Hb & _). okinv Es.
+    assert (Hn0 : isnum (bool_bytes b) (if b then 1 else 0)%Z).
+    { intros z Hz. rewrite num_operand_bool in Hz. congruence. }
+    assert (Ha0 : (0 <= (if b then 1 else 0))%Z) by (destruct b; lia).
+    destruct (csa_sound keys _ _ _ _ _ Hn0 Ha0 H2) as (accv' & a' & p2 & s2 & -> & -> & Hn' & Hle & Hsig).
+    apply exec_cons_ok in H. destruct H as [st3 [H3 H]]. rewrite exec_push_int' in H3. okinv H3.
+    apply exec_one_ok in H. cbn [exec_instr stk alt] in H. apply numequal_ok in H.
+    destruct H as (xk & y & r' & n1 & n2 & Es & E1 & E2 & ->). okinv Es.
+    apply num_operand4_encode in E1; [|lia]. subst n1. rewrite (Hn' _ E2) in *.
+    exists (bool_bytes (Z.of_N k =? a')%Z), (sg :: p2), r'. split; [reflexivity|]. split; [reflexivity|].
+    split; [exact I|]. repeat split; intros; try discriminate.
+    - rewrite truthy_bool in *. rewrite H0. reflexivity.
+    - rewrite truthy_bool in *. apply Z.eqb_eq in H0.
+      destruct b; [eapply hassig_here; apply Hb; reflexivity|].
+      destruct Hsig as [->|Hsig]; [lia | apply hassig_cons; exact Hsig].
+  Qed.
+  (* ---------- the induction ---------- *)
+  Definition stmtS (m : ms) : Prop := forall t, type_of m = ROk t -> wf e ke m -> sound m t.
+
+  Ltac one_child IH Ht Hwf tx Hx :=
+    cbn [type_of] in Ht; apply rbind_ok in Ht; destruct Ht as [tx [Hx Ht]]; cbn [wf] in Hwf;
+    specialize (IH tx Hx Hwf).
+  Ltac two_children IHx IHy Ht Hwf tx t2 :=
+    let Hx := fresh "Hx" in let Hy := fresh "Hy" in let Hwx := fresh "Hwx" in let Hwy := fresh "Hwy" in
+    cbn [type_of] in Ht; apply rbind_ok in Ht; destruct Ht as [tx [Hx Ht]];
+    apply rbind_ok in Ht; destruct Ht as [t2 [Hy Ht]];
+    cbn [wf] in Hwf; destruct Hwf as [Hwx Hwy];
+    specialize (IHx tx Hx Hwx); specialize (IHy t2 Hy Hwy).
+
+  Theorem sound_all : forall m, stmtS m.
+  Proof.
+    induction m using ms_ind'; intros ty0 Ht Hwf.
+    - okinv Ht. apply sound_true.
+    - okinv Ht. apply sound_false.
+    - okinv Ht. apply sound_pk_k.
+    - okinv Ht. apply sound_pk_h.
+    - okinv Ht. apply sound_raw_pk_h.
+    - okinv Ht. apply sound_after. exact Hwf.
+    - okinv Ht. apply sound_older. exact Hwf.
+    - okinv Ht. apply (sound_hash_gen OP_SHA256 _ h); auto.
+    - okinv Ht. apply (sound_hash_gen OP_HASH256 _ h); auto.
+    - okinv Ht. apply (sound_hash_gen OP_RIPEMD160 _ h); auto.
+    - okinv Ht. apply (sound_hash_gen OP_HASH160 _ h); auto.
+    - one_child IHm Ht Hwf tx Hx. eapply sound_alt; eassumption.
+    - one_child IHm Ht Hwf tx Hx. eapply sound_swap; eassumption.
+    - one_child IHm Ht Hwf tx Hx. eapply sound_check; eassumption.
+    - one_child IHm Ht Hwf tx Hx. eapply sound_dupif; eassumption.
+    - one_child IHm Ht Hwf tx Hx. eapply sound_verify; eassumption.
+    - one_child IHm Ht Hwf tx Hx. eapply sound_nonzero; eassumption.
+    - one_child IHm Ht Hwf tx Hx. eapply sound_zne; eassumption.
+    - two_children IHm1 IHm2 Ht Hwf tx tz. eapply sound_and_v; eassumption.
+    - two_children IHm1 IHm2 Ht Hwf tx tz. eapply sound_and_b; eassumption.
+    - cbn [type_of] in Ht. apply rbind_ok in Ht. destruct Ht as [ta [Ha Ht]].
+      apply rbind_ok in Ht. destruct Ht as [tb [Hb Ht]]. apply rbind_ok in Ht. destruct Ht as [tc [Hc Ht]].
+      cbn [wf] in Hwf. destruct Hwf as [Hwa [Hwb Hwc]].
+      eapply sound_andor; [apply IHm1 | apply IHm2 | apply IHm3 | exact Ht]; assumption.
+    - two_children IHm1 IHm2 Ht Hwf tx tz. eapply sound_or_b; eassumption.
+    - two_children IHm1 IHm2 Ht Hwf tx tz. eapply sound_or_d; eassumption.
+    - two_children IHm1 IHm2 Ht Hwf tx tz. eapply sound_or_c; eassumption.
+    - two_children IHm1 IHm2 Ht Hwf tx tz. eapply sound_or_i; eassumption.
+    - (* thresh *)
+      cbn [type_of] in Ht. fold (tys_of xs) in Ht.
+      apply rbind_ok in Ht. destruct Ht as [ts [Hts Ht]]. apply tys_of_ok in Hts.
+      cbn [wf] in Hwf. destruct Hwf as [Hk [Hn Hwf]].
+      assert (Hall : Forall2 sound xs ts).
+      { clear Ht Hk Hn. revert ts Hts Hwf. induction H as [|x r Hx Hr IHr]; intros ts Hts Hwf.
+        - inversion Hts. constructor.
+        - inversion Hts as [|x' t' r' ts' Hxt Hrt]; subst. destruct Hwf as [Hw1 Hw2].
+          constructor; [apply Hx; assumption | apply IHr; assumption]. }
+      destruct Hall as [|x0 t0 r ts0 H0 Hrest]; [cbn in Hk; lia|].
+      eapply sound_thresh; try eassumption. cbn [length] in *. lia.
+    - (* multi *)
+      okinv Ht. cbn [wf] in Hwf. destruct Hwf as [Hk [Hn [Htap Hl]]].
+      apply (sound_multi_gen _ k ks (length ks)); [lia | reflexivity | reflexivity].
+    - (* sortedmulti *)
+      okinv Ht. cbn [wf] in Hwf. destruct Hwf as [Hk [Hn [Htap Hl]]].
+      apply (sound_multi_gen _ k (ksort ke ks) (length ks)); [lia | exact Hl | reflexivity].
+    - (* multi_a *)
+      okinv Ht. cbn [wf] in Hwf. destruct Hwf as [Hk [Hn [Htap Hl]]].
+      destruct ks as [|k0 rest]; [cbn in Hk; lia|].
+      apply (sound_multi_a_gen _ k k0 rest); [lia | reflexivity].
+    - (* sortedmulti_a *)
+      okinv Ht. cbn [wf] in Hwf. destruct Hwf as [Hk [Hn [Htap Hl]]].
+      destruct (ksort ke ks) as [|k0 rest] eqn:Eks; [cbn in Hl; lia|].
+      apply (sound_multi_a_gen _ k k0 rest); [lia|]. cbn [enc]. rewrite Eks. reflexivity.
+  Qed.
+End SignedSound.
+
+(* ================= statements (closed; every stack, every alt stack) ================= *)
+
+(* Frame + signature claims, B: the run consumes a prefix [p] of the stack, restores the alt stack,
+   leaves one value [v]; if the type says s and v is true, or the type says f and v is false,
+   then p contains a valid signature. *)
+Theorem signed_forced_frame_B (e : env) (ke : keyenv) (m : ms) (t : ty) :
+  type_of m = ROk t -> wf e ke m -> c_base (t_corr t) = BB ->
+  forall s al st', exec e (enc ke m) (mkSt s al) = Ok st' ->
+  exists v p s', s = p ++ s' /\ st' = mkSt (v :: s') al /\
+    (m_signed (t_mall t) = true -> truthy v = true -> hassig e p) /\
+    (m_dissat (t_mall t) = DNone -> truthy v = false -> hassig e p).
+Proof.
+  intros Ht Hwf Hb s al st' H. pose proof (sound_all e ke m t Ht Hwf) as Hs.
+  unfold sound in Hs. rewrite Hb in Hs.
+  destruct (Hs _ _ _ H) as (v & p & s' & E1 & E2 & _ & _ & H1 & H2). exists v, p, s'. auto.
+Qed.
+
+Theorem signed_frame_V (e : env) (ke : keyenv) (m : ms) (t : ty) :
+  type_of m = ROk t -> wf e ke m -> c_base (t_corr t) = BV ->
+  forall s al st', exec e (enc ke m) (mkSt s al) = Ok st' ->
+  exists p s', s = p ++ s' /\ st' = mkSt s' al /\ (m_signed (t_mall t) = true -> hassig e p).
+Proof.
+  intros Ht Hwf Hb s al st' H. pose proof (sound_all e ke m t Ht Hwf) as Hs.
+  unfold sound in Hs. rewrite Hb in Hs.
+  destruct (Hs _ _ _ H) as (p & s' & E1 & E2 & _ & H1). exists p, s'. auto.
+Qed.
+
+Theorem signed_forced_frame_K (e : env) (ke : keyenv) (m : ms) (t : ty) :
+  type_of m = ROk t -> wf e ke m -> c_base (t_corr t) = BK ->
+  m_signed (t_mall t) = true /\
+  forall s al st', exec e (enc ke m) (mkSt s al) = Ok st' ->
+  exists kk p s', s = p ++ s' /\ st' = mkSt (kk :: s') al /\
+    (m_dissat (t_mall t) = DNone -> hassig e p).
+Proof.
+  intros Ht Hwf Hb. pose proof (sound_all e ke m t Ht Hwf) as Hs.
+  unfold sound in Hs. rewrite Hb in Hs. destruct Hs as [Hsg Hs]. split; [exact Hsg|].
+  intros s al st' H. destruct (Hs _ _ _ H) as (kk & p & s' & E1 & E2 & _ & H1). exists kk, p, s'. auto.
+Qed.
+
+Theorem signed_forced_frame_W (e : env) (ke : keyenv) (m : ms) (t : ty) :
+  type_of m = ROk t -> wf e ke m -> c_base (t_corr t) = BW ->
+  forall s0 al st', exec e (enc ke m) (mkSt s0 al) = Ok st' ->
+  exists c v p s', s0 = c :: p ++ s' /\
+    (st' = mkSt (c :: v :: s') al \/ st' = mkSt (v :: c :: s') al) /\
+    (m_signed (t_mall t) = true -> truthy v = true -> hassig e p) /\
+    (m_dissat (t_mall t) = DNone -> truthy v = false -> hassig e p).
+Proof.
+  intros Ht Hwf Hb s0 al st' H. pose proof (sound_all e ke m t Ht Hwf) as Hs.
+  unfold sound in Hs. rewrite Hb in Hs.
+  destruct (Hs _ _ _ H) as (c & v & p & s' & E1 & E2 & _ & _ & H1 & H2). exists c, v, p, s'. auto.
+Qed.
+
+(* (S) signed, in the "signature-free stack" form *)
+Theorem signed_B (e : env) (ke : keyenv) (m : ms) (t : ty) :
+  type_of m = ROk t -> wf e ke m -> c_base (t_corr t) = BB -> m_signed (t_mall t) = true ->
+  forall s al st', sigfree e s -> exec e (enc ke m) (mkSt s al) = Ok st' ->
+  exists v r, stk st' = v :: r /\ truthy v = false.
+Proof.
+  intros Ht Hwf Hb Hsg s al st' Hf H.
+  destruct (signed_forced_frame_B e ke m t Ht Hwf Hb s al st' H) as (v & p & s' & -> & -> & H1 & _).
+  exists v, s'. split; [reflexivity|]. destruct (truthy v) eqn:E; [|reflexivity].
+  exfalso. apply (sigfree_no_hassig e p); [eapply sigfree_app_l; exact Hf | auto].
+Qed.
+
+Theorem signed_V (e : env) (ke : keyenv) (m : ms) (t : ty) :
+  type_of m = ROk t -> wf e ke m -> c_base (t_corr t) = BV -> m_signed (t_mall t) = true ->
+  forall s al, sigfree e s -> exec e (enc ke m) (mkSt s al) = Fail.
+Proof.
+  intros Ht Hwf Hb Hsg s al Hf. destruct (exec e (enc ke m) (mkSt s al)) as [st'|] eqn:H; [|reflexivity].
+  destruct (signed_frame_V e ke m t Ht Hwf Hb s al st' H) as (p & s' & -> & _ & H1).
+  exfalso. apply (sigfree_no_hassig e p); [eapply sigfree_app_l; exact Hf | auto].
+Qed.
+
+(* every K type is signed; a K fragment never ends with its key above a signature CHECKSIG accepts *)
+Theorem signed_K (e : env) (ke : keyenv) (m : ms) (t : ty) :
+  type_of m = ROk t -> wf e ke m -> c_base (t_corr t) = BK ->
+  forall s al st', sigfree e s -> exec e (enc ke m) (mkSt s al) = Ok st' ->
+  forall kk sg r, stk st' = kk :: sg :: r -> e_sigok e kk sg = false.
+Proof.
+  intros Ht Hwf Hb s al st' Hf H kk sg r Hst.
+  destruct (signed_forced_frame_K e ke m t Ht Hwf Hb) as [_ Hs].
+  destruct (Hs s al st' H) as (kk' & p & s' & -> & -> & _). cbn in Hst. inversion Hst; subst.
+  apply Hf. apply in_or_app. right. left. reflexivity.
+Qed.
+
+Theorem signed_W (e : env) (ke : keyenv) (m : ms) (t : ty) :
+  type_of m = ROk t -> wf e ke m -> c_base (t_corr t) = BW -> m_signed (t_mall t) = true ->
+  forall c s al st', sigfree e s -> exec e (enc ke m) (mkSt (c :: s) al) = Ok st' ->
+  exists v s', (stk st' = c :: v :: s' \/ stk st' = v :: c :: s') /\ truthy v = false.
+Proof.
+  intros Ht Hwf Hb Hsg c s al st' Hf H.
+  destruct (signed_forced_frame_W e ke m t Ht Hwf Hb _ al st' H) as (c' & v & p & s' & Es & Hst & H1 & _).
+  inversion Es; subst. exists v, s'. split; [destruct Hst as [-> | ->]; auto|].
+  destruct (truthy v) eqn:E; [|reflexivity].
+  exfalso. apply (sigfree_no_hassig e p); [eapply sigfree_app_l; exact Hf | auto].
+Qed.
+
+(* script level: a witness accepted for a signed B script contains a valid signature *)
+Theorem signed_accepts (e : env) (ke : keyenv) (m : ms) (t : ty) :
+  type_of m = ROk t -> wf e ke m -> c_base (t_corr t) = BB -> m_signed (t_mall t) = true ->
+  forall w, accepts e (enc ke m) w = true -> hassig e w.
+Proof.
+  intros Ht Hwf Hb Hsg w H. unfold accepts in H.
+  destruct (exec e (enc ke m) (mkSt w [])) as [st'|] eqn:Hr; [|discriminate].
+  destruct (signed_forced_frame_B e ke m t Ht Hwf Hb w [] st' Hr) as (v & p & s' & -> & -> & H1 & _).
+  cbn [stk] in H. destruct s'; [|discriminate]. apply hassig_app_l. auto.
+Qed.
+
+(* (F) forced: with a signature-free stack a fragment typed f never ends dissatisfied *)
+Theorem forced_B (e : env) (ke : keyenv) (m : ms) (t : ty) :
+  type_of m = ROk t -> wf e ke m -> c_base (t_corr t) = BB -> m_dissat (t_mall t) = DNone ->
+  forall s al st', sigfree e s -> exec e (enc ke m) (mkSt s al) = Ok st' ->
+  exists v r, stk st' = v :: r /\ truthy v = true.
+Proof.
+  intros Ht Hwf Hb Hd s al st' Hf H.
+  destruct (signed_forced_frame_B e ke m t Ht Hwf Hb s al st' H) as (v & p & s' & -> & -> & _ & H2).
+  exists v, s'. split; [reflexivity|]. destruct (truthy v) eqn:E; [reflexivity|].
+  exfalso. apply (sigfree_no_hassig e p); [eapply sigfree_app_l; exact Hf | auto].
+Qed.
+
+Corollary forced_B_not_zero (e : env) (ke : keyenv) (m : ms) (t : ty) :
+  type_of m = ROk t -> wf e ke m -> c_base (t_corr t) = BB -> m_dissat (t_mall t) = DNone ->
+  forall s al r al', sigfree e s -> exec e (enc ke m) (mkSt s al) <> Ok (mkSt ([] :: r) al').
+Proof.
+  intros Ht Hwf Hb Hd s al r al' Hf H.
+  destruct (forced_B e ke m t Ht Hwf Hb Hd s al _ Hf H) as (v & r' & Es & Htr).
+  cbn in Es. inversion Es; subst. discriminate.
+Qed.
+
+Theorem forced_K (e : env) (ke : keyenv) (m : ms) (t : ty) :
+  type_of m = ROk t -> wf e ke m -> c_base (t_corr t) = BK -> m_dissat (t_mall t) = DNone ->
+  forall s al, sigfree e s -> exec e (enc ke m) (mkSt s al) = Fail.
+Proof.
+  intros Ht Hwf Hb Hd s al Hf. destruct (exec e (enc ke m) (mkSt s al)) as [st'|] eqn:H; [|reflexivity].
+  destruct (signed_forced_frame_K e ke m t Ht Hwf Hb) as [_ Hs].
+  destruct (Hs s al st' H) as (kk & p & s' & -> & _ & H1).
+  exfalso. apply (sigfree_no_hassig e p); [eapply sigfree_app_l; exact Hf | auto].
+Qed.
+
+Theorem forced_W (e : env) (ke : keyenv) (m : ms) (t : ty) :
+  type_of m = ROk t -> wf e ke m -> c_base (t_corr t) = BW -> m_dissat (t_mall t) = DNone ->
+  forall c s al st', sigfree e s -> exec e (enc ke m) (mkSt (c :: s) al) = Ok st' ->
+  exists v s', (stk st' = c :: v :: s' \/ stk st' = v :: c :: s') /\ truthy v = true.
+Proof.
+  intros Ht Hwf Hb Hd c s al st' Hf H.
+  destruct (signed_forced_frame_W e ke m t Ht Hwf Hb _ al st' H) as (c' & v & p & s' & Es & Hst & _ & H2).
+  inversion Es; subst. exists v, s'. split; [destruct Hst as [-> | ->]; auto|].
+  destruct (truthy v) eqn:E; [reflexivity|].
+  exfalso. apply (sigfree_no_hassig e p); [eapply sigfree_app_l; exact Hf | auto].
+Qed.
+
+(* ---------- non-vacuity ---------- *)
+Definition sg_env : env :=
+  mkEnv SvWitnessV0 0%N 0%N 2%N (fun _ sg => bytes_eqb sg [7%N]) (fun _ => true)
+        (fun b => b) (fun b => b) (fun b => b) (fun b => b).
+Definition sg_ke : keyenv := mkKeyEnv (fun k => [2%N; k]) (fun k => [3%N; k]) (fun l => l).
+Definition sg_pk : ms := MCheck (MPkK 0%N).                                        (* pk(0): Bdu, s *)
+Definition sg_forced : ms := MAndV (MVerify (MCheck (MPkK 0%N))) (MCheck (MPkK 1%N)). (* and_v(v:pk(0),pk(1)): B, s, f *)
+
+Example sg_pk_type : exists t, type_of sg_pk = ROk t /\ c_base (t_corr t) = BB /\ m_signed (t_mall t) = true
+                               /\ wf sg_env sg_ke sg_pk.
+Proof. eexists. split; [reflexivity|]. repeat split. Qed.
+Example sg_pk_sigfree : sigfree sg_env [[1%N]; [5%N]] /\ sigfree sg_env [[]; [5%N]].
+Proof. split; intros x Hx k; cbn in Hx; intuition (subst; reflexivity). Qed.
+Example sg_pk_rejects :
+  exec sg_env (enc sg_ke sg_pk) (mkSt [[1%N]; [5%N]] []) = Fail /\                       (* NULLFAIL *)
+  exec sg_env (enc sg_ke sg_pk) (mkSt [[]; [5%N]] []) = Ok (mkSt [[]; [5%N]] []) /\      (* dissatisfied *)
+  exec sg_env (enc sg_ke sg_pk) (mkSt [[7%N]; [5%N]] []) = Ok (mkSt [[1%N]; [5%N]] []). (* satisfied with a signature *)
+Proof. repeat split; vm_compute; reflexivity. Qed.
+Example sg_forced_type : exists t, type_of sg_forced = ROk t /\ c_base (t_corr t) = BB /\ m_signed (t_mall t) = true
+                                   /\ m_dissat (t_mall t) = DNone /\ wf sg_env sg_ke sg_forced.
+Proof. eexists. split; [reflexivity|]. repeat split. Qed.
+Example sg_forced_runs :
+  exec sg_env (enc sg_ke sg_forced) (mkSt [[]; []] []) = Fail /\                         (* no signature: no outcome *)
+  exec sg_env (enc sg_ke sg_forced) (mkSt [[7%N]; []] []) = Ok (mkSt [[]] []) /\         (* dissatisfied, consumed a signature *)
+  exec sg_env (enc sg_ke sg_forced) (mkSt [[7%N]; [7%N]] []) = Ok (mkSt [[1%N]] []).
+Proof. repeat split; vm_compute; reflexivity. Qed.
+
+(* the well-formedness side conditions are needed: fragments the constructors reject break s / f *)
+Example wf_needed_after0 :    (* after(0) is typed f, yet leaves 0 without any signature *)
+  (exists t, type_of (MAfter 0) = ROk t /\ m_dissat (t_mall t) = DNone) /\
+  exec sg_env (enc sg_ke (MAfter 0)) (mkSt [] []) = Ok (mkSt [[]] []).
+Proof. split; [eexists; split; reflexivity | vm_compute; reflexivity]. Qed.
+Example wf_needed_multi0 :    (* multi(0,K) is typed s, yet is satisfied by the dummy alone *)
+  (exists t, type_of (MMulti 0 [0%N]) = ROk t /\ m_signed (t_mall t) = true) /\
+  sigfree sg_env [[]] /\
+  exec sg_env (enc sg_ke (MMulti 0 [0%N])) (mkSt [[]] []) = Ok (mkSt [[1%N]] []).
+Proof.
+  split; [eexists; split; reflexivity|]. split; [|vm_compute; reflexivity].
+  intros x Hx k; cbn in Hx; intuition (subst; reflexivity).
+Qed.
+(* END *)
